@@ -19,7 +19,14 @@ import (
 	"golang.org/x/tools/go/ssa/ssautil"
 )
 
-const repoRoot = "/repo"
+// repoRoot is the tree under verification. It is /repo; GOSYM_REPO points the engine at a scratch
+// worktree instead (used only to evaluate seeded changes without touching /repo).
+var repoRoot = func() string {
+	if r := os.Getenv("GOSYM_REPO"); r != "" {
+		return r
+	}
+	return "/repo"
+}()
 const modulePath = "github.com/LiskHQ/lisk-engine"
 
 type Loaded struct {
